@@ -45,6 +45,24 @@ func (st *yamlStyle) keyNode(k string) *yaml.Node {
 		case "true":
 			return &yaml.Node{Kind: yaml.ScalarNode, Tag: "!!bool", Value: []string{"True", "TRUE", "true"}[st.rng.Intn(3)]}
 		}
+		if f, err := strconv.ParseFloat(k, 64); err == nil && strings.Contains(k, "e") && strconv.FormatFloat(f, 'e', -1, 64) == k {
+			// the key is the canonical string of a float: written as a plain float in some other spelling
+			sp := []string{strconv.FormatFloat(f, 'g', -1, 64), strconv.FormatFloat(f, 'e', -1, 64), strings.ToUpper(strconv.FormatFloat(f, 'e', -1, 64))}
+			if math.Abs(f) < 1e15 && math.Abs(f) > 1e-9 {
+				sp = append(sp, strconv.FormatFloat(f, 'f', -1, 64), strconv.FormatFloat(f, 'f', -1, 64)+"0")
+			}
+			v := sp[st.rng.Intn(len(sp))]
+			if f > 0 && st.rng.Intn(3) == 0 {
+				v = "+" + v
+			}
+			n := &yaml.Node{Kind: yaml.ScalarNode, Tag: "!!float", Value: v}
+			var back any
+			if n.Decode(&back) == nil {
+				if bf, ok := back.(float64); ok && bf == f {
+					return n
+				}
+			}
+		}
 	}
 	return st.strNode(k)
 }
@@ -292,6 +310,9 @@ func avKeyText(key *yaml.Node) string {
 				return strconv.FormatUint(t, 10)
 			case bool:
 				return strconv.FormatBool(t)
+			case float64:
+				// distinct floats are distinct keys: scientific notation with as many digits as the value needs
+				return strconv.FormatFloat(t, 'e', -1, 64)
 			}
 		}
 	}
